@@ -42,7 +42,7 @@ theorem Expl.last_snapshot {P : Params} {hidden : List String} {evs : List (Nat 
     exact ⟨s, he, logList_eq_of_beq _ _ hq⟩
   | @stop pre0 s he ih => intro pre tm es h; have := List.append_inj_right' h rfl; simp at this
 
-def sendsOf (es : List LogEntry) : List String := es.filterMap (fun e => match e with | .send t => some t | _ => none)
+def snapshotSends (es : List LogEntry) : List String := es.filterMap (fun e => match e with | .send t => some t | _ => none)
 
 theorem ring_suffix {α : Type} (N : Nat) (l : List α) : ring N l <:+ l := by
   unfold ring; exact List.drop_suffix _ _
